@@ -105,3 +105,15 @@ claim("C12",
       "Trusts declared library semantics (comparisons/len/HMAC::finalize declassify; rendering calls propagate), rustc MIR + extractor; "
       "OS file modes, swap/core dumps and flows inside dependencies are not decided.",
       "DESIGN.md §5 C12")
+
+claim("C13",
+      "panic-site inventory armed by summary-based interprocedural external-data taint + reviewed SAFE table + idiom recognition",
+      "Decides for the workspace's own code that no panic-capable construct (explicit panic, unwrap/expect, Index on str/String/Vec/map, "
+      "MIR bounds/division asserts, std APIs documented to panic, byte-offset string truncation without a char-boundary idiom, unsigned "
+      "subtraction feeding a sleep) is reachable from the service entry with an operand derived from a client request, the caller's "
+      "names/command line, a host reply, deserialised data or files read back - including data that travels through format!, error values, "
+      "awaits, closures and the actors' channels. Every armed site is in a reviewed SAFE table with its reason, accepted by a recognised "
+      "idiom, or reported.",
+      "Trusts the declared taint propagation for external callees; panics inside dependencies, memory/stack exhaustion and debug-only "
+      "overflow checks are not decided.",
+      "DESIGN.md §5 C13")
